@@ -198,6 +198,22 @@ type countReader struct {
 	storage.RelationshipTupleReader
 	mu sync.Mutex
 	n  int
+	// racing read: when armed, a read that reached the datastore is held AFTER the datastore has selected
+	// its rows and BEFORE the iterator is handed back to the caller
+	armed   bool
+	held    chan struct{}
+	release chan struct{}
+}
+
+func (c *countReader) pause() {
+	c.mu.Lock()
+	a := c.armed
+	c.armed = false
+	c.mu.Unlock()
+	if a {
+		c.held <- struct{}{}
+		<-c.release
+	}
 }
 
 func (c *countReader) bump() { c.mu.Lock(); c.n++; c.mu.Unlock() }
@@ -208,15 +224,21 @@ func (c *countReader) count() int {
 }
 func (c *countReader) Read(ctx context.Context, store string, f storage.ReadFilter, o storage.ReadOptions) (storage.TupleIterator, error) {
 	c.bump()
-	return c.RelationshipTupleReader.Read(ctx, store, f, o)
+	it, err := c.RelationshipTupleReader.Read(ctx, store, f, o)
+	c.pause()
+	return it, err
 }
 func (c *countReader) ReadUsersetTuples(ctx context.Context, store string, f storage.ReadUsersetTuplesFilter, o storage.ReadUsersetTuplesOptions) (storage.TupleIterator, error) {
 	c.bump()
-	return c.RelationshipTupleReader.ReadUsersetTuples(ctx, store, f, o)
+	it, err := c.RelationshipTupleReader.ReadUsersetTuples(ctx, store, f, o)
+	c.pause()
+	return it, err
 }
 func (c *countReader) ReadStartingWithUser(ctx context.Context, store string, f storage.ReadStartingWithUserFilter, o storage.ReadStartingWithUserOptions) (storage.TupleIterator, error) {
 	c.bump()
-	return c.RelationshipTupleReader.ReadStartingWithUser(ctx, store, f, o)
+	it, err := c.RelationshipTupleReader.ReadStartingWithUser(ctx, store, f, o)
+	c.pause()
+	return it, err
 }
 
 type setEv struct {
@@ -533,7 +555,7 @@ func runCase(d caseDesc) (res caseResult) {
 	cs := &caseState{d: d, ctx: ctx, store: ulid.Make().String(), model: ulid.Make().String(), mem: mem, gate: gate, cache: cache, ctrl: ctrl,
 		inflight: (*sync.Map)(unsafe.Pointer(cv.FieldByName("inflightInvalidations").UnsafeAddr())),
 		ctrlWG:   (*sync.WaitGroup)(unsafe.Pointer(cv.FieldByName("wg").UnsafeAddr())),
-		counter:  &countReader{RelationshipTupleReader: mem}, cdsWG: &sync.WaitGroup{}, listIdx: map[string]int{}, present: map[tup]bool{}, nodes: map[int]qnode{}}
+		counter:  &countReader{RelationshipTupleReader: mem, held: make(chan struct{}, 1), release: make(chan struct{})}, cdsWG: &sync.WaitGroup{}, listIdx: map[string]int{}, present: map[tup]bool{}, nodes: map[int]qnode{}}
 	cs.cds = storagewrappers.NewCachedDatastore(ctx, cs.counter, cache, 1000, ms(d.Ittl), &singleflight.Group{}, cs.cdsWG,
 		storagewrappers.WithCachedDatastoreJitterPercentage(uint32(d.Jit)))
 	cs.dlg = &delegate{cs: cs, side: map[uint64][][][3]int{}}
@@ -639,6 +661,42 @@ func runCase(d caseDesc) (res caseResult) {
 		ops = append(ops, rec.L(rec.I(5), rec.I64(tb), rec.I64(ta), rec.Bool(did), rec.Bool(clSet), rec.I(clN), rec.Bool(storeSet), rec.L(marks...), rec.I(cs.readLen), rec.I64(clTTL), rec.I64(storeTTL), rec.I64(markTTL)))
 	}
 
+	doWrite := func(ws []tup) []rec.V {
+var dels storage.Deletes
+			var wrs storage.Writes
+			for _, t := range ws {
+				if t.Del {
+					dels = append(dels, tuple.TupleKeyToTupleKeyWithoutCondition(t.key()))
+				} else {
+					wrs = append(wrs, t.key())
+				}
+			}
+			if err := mem.Write(ctx, cs.store, dels, wrs); err != nil {
+				panic(fmt.Sprintf("write: %v", err))
+			}
+			chs, _, err := mem.ReadChanges(ctx, cs.store, storage.ReadChangesFilter{}, storage.ReadChangesOptions{Pagination: storage.PaginationOptions{PageSize: 100000}})
+			if err != nil {
+				panic(err)
+			}
+			var vs []rec.V
+			for _, ch := range chs[cs.nchg:] {
+				tk := ch.GetTupleKey()
+				_, oid := tuple.SplitObject(tk.GetObject())
+				oi, _ := strconv.Atoi(oid)
+				r := 0
+				for id, nm := range relName {
+					if nm == tk.GetRelation() {
+						r = id
+					}
+				}
+				del := ch.GetOperation() == openfgav1.TupleOperation_TUPLE_OPERATION_DELETE
+				vs = append(vs, rec.L(rec.I(userID(tk.GetUser())), rec.I(1), rec.I(oi), rec.I(r), rec.Bool(del)))
+				cs.chgTS = append(cs.chgTS, ch.GetTimestamp().AsTime().UnixNano())
+			}
+			cs.nchg = len(chs)
+			return vs
+	}
+
 	exec := func(o opDesc) {
 		target += int64(o.Slot) * slotNS
 		// a run must not be held for a second (ReadChanges has a 1 s timeout after which the run gives up
@@ -663,44 +721,53 @@ func runCase(d caseDesc) (res caseResult) {
 		}
 		switch o.K {
 		case "w":
-			var dels storage.Deletes
-			var wrs storage.Writes
-			for _, t := range o.Ws {
-				if t.Del {
-					dels = append(dels, tuple.TupleKeyToTupleKeyWithoutCondition(t.key()))
-				} else {
-					wrs = append(wrs, t.key())
-				}
-			}
 			tb := cs.now()
-			if err := mem.Write(ctx, cs.store, dels, wrs); err != nil {
-				panic(fmt.Sprintf("write: %v", err))
-			}
+			vs := doWrite(o.Ws)
 			ta := cs.now()
-			chs, _, err := mem.ReadChanges(ctx, cs.store, storage.ReadChangesFilter{}, storage.ReadChangesOptions{Pagination: storage.PaginationOptions{PageSize: 100000}})
-			if err != nil {
-				panic(err)
-			}
-			var vs []rec.V
-			for _, ch := range chs[cs.nchg:] {
-				tk := ch.GetTupleKey()
-				_, oid := tuple.SplitObject(tk.GetObject())
-				oi, _ := strconv.Atoi(oid)
-				r := 0
-				for id, nm := range relName {
-					if nm == tk.GetRelation() {
-						r = id
-					}
-				}
-				del := ch.GetOperation() == openfgav1.TupleOperation_TUPLE_OPERATION_DELETE
-				vs = append(vs, rec.L(rec.I(userID(tk.GetUser())), rec.I(1), rec.I(oi), rec.I(r), rec.Bool(del)))
-				cs.chgTS = append(cs.chgTS, ch.GetTimestamp().AsTime().UnixNano())
-			}
-			cs.nchg = len(chs)
 			times = append(times, opTimes{tb, ta})
 			kinds = append(kinds, 'w')
 			ops = append(ops, rec.L(rec.I(1), rec.I64(tb), rec.I64(ta), rec.L(vs...)))
 			res.stats["op_write"]++
+			res.stats["changes"] += len(vs)
+		case "rr":
+			// a cached read that races with a write: rows selected, the write commits, the iterator is handed back
+			cache.take()
+			cs.curI = nil
+			tb := cs.now()
+			cs.counter.mu.Lock()
+			cs.counter.armed = true
+			cs.counter.mu.Unlock()
+			done := make(chan []readObs, 1)
+			go func() { done <- cs.readKeys(o.Keys[:1]) }()
+			var obs []readObs
+			var vs []rec.V
+			select {
+			case <-cs.counter.held:
+				vs = doWrite(o.Ws)
+				cs.counter.release <- struct{}{}
+				obs = <-done
+			case obs = <-done: // served from the cache: the write simply follows
+				cs.counter.mu.Lock()
+				cs.counter.armed = false
+				cs.counter.mu.Unlock()
+				vs = doWrite(o.Ws)
+			}
+			ta := cs.now()
+			jx := int64(0)
+			for _, ev := range cache.take() {
+				if _, ok := ev.val.(*storage.TupleIteratorCacheEntry); ok {
+					jx = int64(ev.ttl) - int64(ms(d.Ittl))
+					opTTL[len(times)] = append(opTTL[len(times)], int64(ev.ttl))
+				}
+			}
+			times = append(times, opTimes{tb, ta})
+			kinds = append(kinds, 'x')
+			ops = append(ops, rec.L(rec.I(6), rec.I64(tb), rec.I64(ta), keyPool[o.Keys[0]].v(), rec.L(vs...),
+				rec.Bool(obs[0].hit), contentV(obs[0].content), rec.I64(jx)))
+			res.stats["op_racing_read"]++
+			if !obs[0].hit {
+				res.stats["racing_read_across_write"]++
+			}
 			res.stats["changes"] += len(vs)
 		case "r":
 			root := 0
@@ -848,6 +915,13 @@ func runCase(d caseDesc) (res caseResult) {
 		for j := i + 1; j < len(times) && res.discard == ""; j++ {
 			a, b := kinds[i], kinds[j]
 			bad := false
+			if a == 'x' || b == 'x' { // a racing read is a write and a request
+				for _, T := range append([]int64{qT, iT, vT}, opTTL[i]...) {
+					if near(i, j, T) {
+						bad = true
+					}
+				}
+			}
 			if (a == 'f' || a == 'r') && (b == 'r' || b == 'i') && near(i, j, qT) {
 				bad = true
 			}
@@ -991,6 +1065,27 @@ func (g *gen) request(slot int) {
 	o.Keys = rec.Pick(g.r, g.lists)
 }
 
+// raceRead: a cached read of one key of the pool racing with a write that touches that key
+func (g *gen) raceRead(slot int) {
+	ki := rec.Pick(g.r, []int{0, 2, 3, 4})
+	g.fresh++
+	var t tup
+	switch ki {
+	case 0:
+		t = tup{User: 100 + g.fresh, Oid: 1, Rel: relViewer}
+	case 2:
+		t = tup{User: 1000 + g.fresh, Oid: 1, Rel: relParent}
+	case 3:
+		t = tup{User: 1, Oid: 10 + g.fresh, Rel: relEditor}
+	default:
+		t = tup{User: 50, Oid: 10 + g.fresh, Rel: relEditor}
+	}
+	g.present[[3]int{t.User, t.Oid, t.Rel}] = true
+	o := g.add("rr", slot)
+	o.Keys = []int{ki}
+	o.Ws = []tup{t}
+}
+
 // reqAll requests every query of the case once
 func (g *gen) reqAll(slot func() int) {
 	for _, l := range g.lists {
@@ -1082,6 +1177,9 @@ func generate(seed uint64, idx int) caseDesc {
 	if len(g.trees) > 0 && r.Chance(1, 4) {
 		t = 103 + r.Intn(2)
 	}
+	if d.Ion && !d.Qon && d.Jit == 0 && r.Chance(1, 6) {
+		t = 105
+	}
 	switch {
 	case t == 100: // an entry whose jittered TTL outlives what the controller assumes
 		d.Tmpl = "jitter_witness"
@@ -1127,6 +1225,21 @@ func generate(seed uint64, idx int) caseDesc {
 		g.add("rd", 0)
 		g.add("f", 0) // partial: marker for (second, doc) only
 		g.add("r", 1).Keys = []int{4}
+		g.reqAll(func() int { return 0 })
+	case t == 105:
+		// a read racing with a write, then a PARTIAL run (the first change has left the window): the markers
+		// must be newer than the entry although the entry is not older than the write
+		d.Tmpl = "racing_read"
+		g.raceRead(d.Ittl/20 + r.Range(1, 3))
+		last := g.ops[len(g.ops)-1]
+		if r.Bool() {
+			g.write(0, 1, 3)
+		}
+		g.add("i", r.Range(0, 2))
+		g.add("rd", 0)
+		g.add("f", 0)
+		g.add("r", 0).Keys = last.Keys
+		g.add("r", 1).Keys = last.Keys
 		g.reqAll(func() int { return 0 })
 	case t == 103: // sub-problems, admissible history: the run must invalidate parent and child
 		d.Tmpl = "subproblem_quiet"
@@ -1254,6 +1367,8 @@ func generate(seed uint64, idx int) caseDesc {
 				g.request(gp)
 			case x < 75:
 				g.add("i", gp)
+			case x < 78 && d.Ion && d.Jit == 0:
+				g.raceRead(gp)
 			case x < 87:
 				g.add("rd", gp)
 			default:
